@@ -1902,6 +1902,7 @@ bool Node::perform_handshake(const PeerId& peer_id,
     const auto now = std::chrono::steady_clock::now();
     const auto key = peer_id_to_string(peer_id);
 
+    std::scoped_lock handshake_lock(handshake_mutex_);
     const auto existing = handshake_state_.find(key);
     if (existing != handshake_state_.end()) {
         const auto elapsed = now - existing->second.last_attempt;
@@ -1961,6 +1962,7 @@ int Node::reputation_score(const PeerId& peer_id) const {
 }
 
 std::optional<bool> Node::last_handshake_success(const PeerId& peer_id) const {
+    std::scoped_lock handshake_lock(handshake_mutex_);
     const auto it = handshake_state_.find(peer_id_to_string(peer_id));
     if (it == handshake_state_.end()) {
         return std::nullopt;
